@@ -21,7 +21,7 @@ CLAIMS = {
         note="Trusted: refmodel/nip01ser.go (written from the NIP text, no encoding/json), btcec's schnorr signer as BIP-340 reference, SHA-256. The relay's admission gate (relay.go) is exercised by the ws-gate part (E3).",
         technique=ENUM_TECH + "; exhaustive call sequences up to a depth; stateless model checking of concurrent callers with statement-level scheduling points", design="DESIGN.md §4 C01"),
     "C03": dict(engine="seqx", category="model_checking",
-        text="Explicit-state BFS over every insertion history (depth 3 quick / 5 thorough, capacities 1,2,3,(4),100; capacities <= 4 reach a fixpoint) over a 28-event colliding alphabet, each state rebuilt on a fresh real EventCache and keyed on a dump of the complete internal state; in every state 841 filter lists are answered by Find and compared with a tie-tolerant specification over the retained set (both access paths).",
+        text="Explicit-state BFS over every insertion history (depth 3 quick / 5 thorough, capacities 1,2,3,(4),100; capacities <= 4 reach a fixpoint) over a 31-event colliding alphabet and a 14-event focus alphabet, each state rebuilt on a fresh real EventCache and keyed on a dump of the complete internal state; in every state 841 filter lists are answered by Find and compared with a tie-tolerant specification over the retained set (both access paths).",
         note="Trusted: refmodel.MatchFilter and the limit-newest union oracle. Alphabet- and depth-bounded. Ties at a limit cut accept any choice.",
         technique="explicit-state model checking of the implementation: BFS over operation histories replayed on fresh real objects, full internal state as state key, reference-model oracle in every state", design="DESIGN.md §4 C03-C05"),
     "C04": dict(engine="seqx", category="model_checking",
@@ -49,11 +49,11 @@ CLAIMS = {
         note="Scheduling points are synchronisation operations; sound for data-race-free code. Children are scripted stubs that honour the property's premise (one reply per request). Harness sizes: one session, <= 3 children, <= 3 requests.",
         technique=E1_TECH, design="DESIGN.md §4 C09"),
     "C12": dict(engine="wsx", category="exploration",
-        text="Every frame sequence up to length 2 (quick) / 3 (thorough) over 20 frame classes x 3 handler scripts through the real Relay.ServeHTTP + coder/websocket on net.Pipe inside a synctest bubble (exact quiescence after every frame): the handler gets exactly the valid authentic frames in order, every other frame gets exactly one rejection, the connection stays usable; every handler-output sequence up to length 3/4 over 10 server messages arrives as equal text frames in order.",
+        text="Every frame sequence up to length 2 (quick) / 3 (thorough) over 20 frame classes x 3 handler scripts through the real Relay.ServeHTTP + coder/websocket on net.Pipe inside a synctest bubble (exact quiescence after every frame): the handler gets exactly the valid authentic frames in order, every other frame gets exactly one rejection, the connection stays usable; every handler-output sequence up to length 3/4 over 10 server messages arrives as equal text frames in order; a sweep of every free-text field of the seven server message types x 19 strings of special characters (one message per session).",
         note="Enumerates frames/outputs/configurations, not interleavings inside net/http and coder/websocket; net.Pipe instead of TCP. Frames above the size limit (library closes) are unclaimed.",
         technique="bounded exhaustive enumeration of frame and output sequences on the real WebSocket stack under virtual time with exact quiescence detection", design="DESIGN.md §4 C12"),
     "C13": dict(engine="vsched", category="model_checking",
-        text="Handlers (E1): 8 real compositions (Default, Cache, Router, merges, SQLite in memory, the composition of cmd/mocrelay) x 6 wrappers plus every provided middleware singly plus four wrappers configured to refuse parts of the history (the middleware's own rejection in flight, peer stalling after 0-3 reads), serving [REQ, EVENT, COUNT, CLOSE, REQ] while a second connection publishes; the session is ended by an environment task enabled from the start (every cut point) - cancel with draining or stalled peer, or inbound close; all schedules up to a delay or deviation bound per job (steps of the environment task cost nothing, so every cut point of every explored schedule is reached); at quiescence ServeNostr has returned, no task spawned under the session is alive, router registry and Prometheus gauges are back. WebSocket (E3): SendTimeout x PingDuration (incl. disabled) x handler x stall point in virtual time: the stalled peer is dropped by T0+SendTimeout(+allowance), ServeHTTP returns, no goroutine left; every cut point of a 4-frame history for client close / connection cut.",
+        text="Handlers (E1): 9 real compositions (Default, Cache, Router, merges, SQLite in memory, the composition of cmd/mocrelay, SQLite whose bulk-insert goroutine has stopped) x 6 wrappers plus every provided middleware singly plus four wrappers configured to refuse parts of the history (the middleware's own rejection in flight, peer stalling after 0-3 reads), serving [REQ, EVENT, COUNT, CLOSE, REQ] while a second connection publishes; the session is ended by an environment task enabled from the start (every cut point) - cancel with draining or stalled peer, or inbound close; all schedules up to a delay or deviation bound per job (steps of the environment task cost nothing, so every cut point of every explored schedule is reached); at quiescence ServeNostr has returned, no task spawned under the session is alive, router registry and Prometheus gauges are back. WebSocket (E3): SendTimeout x PingDuration (incl. disabled) x handler x stall point in virtual time: the stalled peer is dropped by T0+SendTimeout(+allowance), ServeHTTP returns, no goroutine left; every cut point of a 4-frame history for client close / connection cut.",
         note="Goroutines inside database/sql, go-sqlite3, net/http and coder/websocket are not scheduled by E1; E3 enumerates configurations and cut points, not interleavings of the network stack.",
         technique=E1_TECH + "; plus exhaustive enumeration of configurations and cut points on the real WebSocket stack under virtual time", design="DESIGN.md §4 C13"),
     "C15": dict(engine="vsched", category="model_checking",
@@ -81,7 +81,7 @@ CLAIMS = {
         note="created_at windows are judged against a virtual clock and claimed only at >= 2 s from the boundary; an over-long CLOSE id is unclaimed.",
         technique=E1_TECH, design="DESIGN.md §4 C17"),
     "C18": dict(engine="vsched", category="model_checking",
-        text="All client histories up to length 5/6 over {REQ a,b,c; CLOSE a,b} through the real MaxSubscriptions wrapper for N=1,2(,3), all EVENT-id histories up to length 5/6 over 3 ids through the real receive- and send-side unique filters for window 1,2, each on all schedules (unbounded with state caching), against a set model and a last-size-distinct model (three-valued); two concurrent sessions on one middleware value with colliding ids: all schedules, each session's outcome equals its outcome alone.",
+        text="All client histories up to length 5/6 over {REQ a,b,c; CLOSE a,b} through the real MaxSubscriptions wrapper for N=1,2(,3), all EVENT-id histories up to length 5/6 over 3 ids through the real receive- and send-side unique filters for window 1,2, each on all schedules (unbounded with state caching), against a set model and a last-size-distinct model (three-valued); two sessions on one middleware value with colliding ids - concurrently, and one after the other has ended: all schedules, each session's outcome equals its outcome alone.",
         note="A repeated id that has left the window is unclaimed. Stubs downstream answer every REQ with EOSE / every EVENT with OK.",
         technique=E1_TECH, design="DESIGN.md §4 C18"),
     "C19": dict(engine="vsched", category="model_checking",
